@@ -124,10 +124,13 @@ def check(s):
                  detail="accepting path: " + "; ".join(f"{show(t, maxlen=80)}={v}" for t, v in pa.conds),
                  necessary_for="wrong shapes, non-integral values and foreign types are rejected")
         if cls == "Dict":
-            t0 = [p.conds[0] for p in paths if p.conds]
-            okd = all(isinstance(t, tuple) and t[0] == "call" and t[1] == ("global", "isinstance") and t[2][0] == x for t, v in t0)
-            s.ob("C14.3", f"{con}.container-type", okd and any(not v for t, v in t0), "a path rejects values that are not mappings of the expected type", loc,
-                 key="guard-container-type", detail="; ".join(show(t, maxlen=80) for t, v in t0))
+            # the accepting path requires x to be a mapping of the expected type, however the test is spelled or merged with its neighbours
+            # (`not isinstance(x, OrderedDict) or keys differ` is one guard as good as two): some isinstance(x, T) atom of the path's
+            # tests is entailed by them
+            atoms = {c_ for t_, _v in pa.conds for c_ in walk(t_) if isinstance(c_, tuple) and c_ and c_[0] == "call" and c_[1] == ("global", "isinstance") and c_[2] and c_[2][0] == x}
+            okd = any(entails(nz, pa.conds, a_) is True for a_ in atoms)
+            s.ob("C14.3", f"{con}.container-type", okd, "values that are not mappings of the expected type are rejected (the accepting path requires isinstance(x, <mapping type>))", loc,
+                 key="guard-container-type", detail="; ".join(f"{show(t, maxlen=80)}={v}" for t, v in pa.conds))
     # ---------------------------------------------------------------- __eq__ / __hash__
     for cls in KINDS:
         ci, dc, fn = s.method(cls, "__eq__")
